@@ -352,6 +352,61 @@ theorem lookup_sound (ops : List (Nat × Nat × Nat)) (key now : Nat) :
   · exact ⟨by simp, List.nodup_nil, by simp⟩
 
 open Mieru.SrcCache in
+/-- COMPOSED (audit U2): on what the cache can actually return — after ANY history of records, for
+    any key and instant — no user's decryptor runs twice in a `tryState`; the capacity hypothesis of
+    `tryState_each_user_once` is discharged by `lookup_sound` -/
+theorem tryState_on_lookup_each_user_once (ops : List (Nat × Nat × Nat)) (key now : Nat) :
+    (tryState n hint auth (lookup (run ops) key now) mandatory).tried.Nodup :=
+  tryState_each_user_once n hint auth _ mandatory (lookup_sound ops key now).2.2
+
+open Mieru.SrcCache in
+/-- MRU ORDER AND COMPLETENESS of `lookup` (audit W3) — for ANY bucket: if the first way holding
+    `key` is `e` and the source has not expired, `lookup` returns EXACTLY the users with a live
+    (non-empty, unexpired) slot in `e`, each with the age of its freshest live slot, sorted by that
+    age — most recently seen first — and stably (users of equal age in the order of the candidate
+    scan).  A `lookup` that returns `[]`, or the right users in another order, does not satisfy this. -/
+theorem lookup_mru_order (b : Bucket) (key now : Nat) (e : Entry)
+    (hfind : b.find? (isKey key) = some (some e)) (hlive : expired now e.lastActive = false) :
+    lookup b key now = (lookupAged b key now).map (·.1) ∧
+    (lookupAged b key now).Pairwise (fun a c => a.2 ≤ c.2) ∧
+    (∀ k, (lookupAged b key now).filter (fun c => c.2 == k)
+        = (candidates now e.users []).filter (fun c => c.2 == k)) ∧
+    (∀ id, id ∈ lookup b key now ↔ id ≠ 0 ∧ ∃ seen, (id, seen) ∈ e.users ∧ expired now seen = false) ∧
+    (∀ p ∈ lookupAged b key now,
+        (∃ seen, (p.1, seen) ∈ e.users ∧ expired now seen = false ∧ p.2 = age now seen) ∧
+        ∀ seen, (p.1, seen) ∈ e.users → expired now seen = false → p.2 ≤ age now seen) := by
+  have hl : lookup b key now = (sortByAge (candidates now e.users [])).map (·.1) := by
+    unfold lookup; rw [hfind]; simp [hlive]
+  have ha : lookupAged b key now = sortByAge (candidates now e.users []) := by
+    unfold lookupAged; rw [hfind]; simp [hlive]
+  obtain ⟨_, h2, h3, h4⟩ := candidates_ok_nil now e.users
+  have hperm := sortByAge_perm (candidates now e.users [])
+  refine ⟨by rw [hl, ha], by rw [ha]; exact sortByAge_sorted _, fun k => by rw [ha]; exact sortByAge_stable _ k, ?_, ?_⟩
+  · intro id
+    rw [hl]
+    constructor
+    · intro hin
+      obtain ⟨c, hc, hce⟩ := List.mem_map.mp hin
+      obtain ⟨hne, seen, hs, he, _⟩ := h2 c (hperm.mem_iff.mp hc)
+      subst hce
+      exact ⟨hne, seen, hs, he⟩
+    · rintro ⟨hne, seen, hs, he⟩
+      obtain ⟨c, hc, hce⟩ := List.mem_map.mp (h4 id seen hs hne he)
+      exact List.mem_map.mpr ⟨c, hperm.mem_iff.mpr hc, hce⟩
+  · intro p hp
+    rw [ha] at hp
+    have hp' := hperm.mem_iff.mp hp
+    obtain ⟨_, seen, hs, he, hage⟩ := h2 p hp'
+    exact ⟨⟨seen, hs, he, hage⟩, h3 p hp'⟩
+
+open Mieru.SrcCache in
+/-- non-vacuity: a way whose slots hold user 3 twice (ages 30 and 10), user 4 (age 10), an expired
+    slot of user 5 and an empty slot: users 3 and 4, each once, both of age 10, in slot order -/
+example : lookupAged [some ⟨7, 995, [(3, 970), (4, 990), (0, 0), (5, 300), (3, 990)]⟩] 7 1000 = [(3, 10), (4, 10)] ∧
+    lookupAged [some ⟨7, 995, [(4, 970), (3, 990)]⟩] 7 1000 = [(3, 10), (4, 30)] ∧
+    lookupAged [some ⟨7, 995, [(4, 970), (3, 990)]⟩] 7 1600 = [] := by decide
+
+open Mieru.SrcCache in
 /-- non-vacuity: two users recorded for source 7, one for a colliding source 9; the lookup for 7
     returns exactly the two, most recent first, and nothing of source 9 -/
 example : lookup (run [(7, 3, 100), (9, 5, 110), (7, 4, 120)]) 7 130 = [4, 3] := by decide
@@ -379,6 +434,14 @@ example : (tryState 3 (fun _ => false) (fun i => i == 2 || i == 3) [3] true).use
 /-- stale / duplicate / out-of-range cached ids, every user tried once -/
 example : (tryState 3 (fun i => i == 1) (fun i => i == 3) [0, 9, 2, 2, 1, 1] false)
     = { user := some (3, .registryFallback), tried := [1, 2, 3] } := by decide
+
+/-- (audit W2) `tryState_cache_independent` instantiated: only user 3 authenticates (distinct
+    credentials); a cache holding other users and one holding user 3, duplicates and a stale id
+    attribute the segment to the same user -/
+example : ((tryState 3 (fun _ => false) (fun i => i == 3) [1, 2] false).user.map (·.1))
+    = ((tryState 3 (fun _ => false) (fun i => i == 3) [3, 3, 9] false).user.map (·.1)) :=
+  tryState_cache_independent 3 _ _ [1, 2] false
+    (by intro v w _ _ hv hw; simp only [beq_iff_eq] at hv hw; omega) [3, 3, 9]
 
 /-- tie (T): the cache geometry and lifetime the model uses are the constants of the CURRENT source
     (regenerated into `Mieru.Gen.Consts` from the compiled repository on every run) -/
